@@ -142,12 +142,24 @@ def rule_blockgate(prog, rep):
     rep.floor("C09.BLOCKGATE", 5)
     cb = prog.fn(r"^apollo_compiler::ast::serialize::can_be_block_string$")
     body = prog.hir_body(cb)["body"]
+    from ..hirx import Scope as _Scope
+    sc = _Scope(prog.hir_body(cb))
+
+    def is_value_param(e):
+        e = strip_expr(e)
+        return e.get("k") == "path" and e.get("res") and e["res"][0] == "local" and sc.is_param(e["res"][2])
+
+    # the whitespace-trimming helper: the fn(&str) -> &str nested in can_be_block_string (any name)
+    trimmers = [g for g in prog.fns.values() if g.name.startswith(cb.name + "::") and g.kind == "fn"]
+    if len(trimmers) != 1:
+        raise Undecided("can_be_block_string: expected one nested whitespace-trimming helper (found %d)" % len(trimmers))
+    trimmer = trimmers[0]
     # (a) early `return false` under value.contains('\r')
     ok_cr = False
     for n in walk(body):
         if n.get("k") == "if":
             c = strip_expr(n["cond"])
-            if c.get("k") == "mcall" and c["m"] == "contains" and local_of(c["recv"]) == "value" and strip_expr(c["args"][0]).get("v") == 0x0D:
+            if c.get("k") == "mcall" and c["m"] == "contains" and is_value_param(c["recv"]) and strip_expr(c["args"][0]).get("v") == 0x0D:
                 rets = [x for x in walk(n["then"]) if x.get("k") == "ret" and strip_expr(x["e"]).get("v") is False]
                 if rets:
                     ok_cr = True
@@ -163,7 +175,7 @@ def rule_blockgate(prog, rep):
             clo = strip_expr(n["args"][0])
             calls = [callee_path(x) for x in walk(clo) if x.get("k") == "call" and callee_path(x)]
             empt = [x for x in walk(clo) if x.get("k") == "mcall" and x["m"] == "is_empty"]
-            if which in ("next", "next_back") and any(c.endswith("trim_start_graphql_whitespace") for c in calls) and empt:
+            if which in ("next", "next_back") and any(c == trimmer.name for c in calls) and empt:
                 firstlast.add(which)
     if firstlast == {"next", "next_back"}:
         rep.instance("C09.BLOCKGATE", "can_be_block_string: whitespace-only first or last line -> false")
@@ -172,12 +184,23 @@ def rule_blockgate(prog, rep):
     # (c) result is `common_indent == 0`
     tail = body.get("expr") if body.get("k") == "block" else None
     t = strip_expr(tail) if tail else {}
-    if t.get("k") == "bin" and t["op"] == "==" and local_of(t["a"]) == "common_indent" and strip_expr(t["b"]).get("v") == 0:
+    def is_min_indent(e):
+        """a local bound to `<iterator of per-line indents>.min().unwrap_or(0)`"""
+        e = strip_expr(e)
+        if not (e.get("k") == "path" and e.get("res") and e["res"][0] == "local"):
+            return False
+        let = sc.lets.get(sc.canon(e["res"][2]))
+        if let is None or let.get("init") is None:
+            return False
+        ms_ = [x["m"] for x in walk(let["init"]) if x.get("k") == "mcall"]
+        return "min" in ms_ and any(c == trimmer.name for c in [callee_path(x) for x in walk(let["init"]) if x.get("k") == "call" and callee_path(x)])
+
+    if t.get("k") == "bin" and t["op"] == "==" and is_min_indent(t["a"]) and strip_expr(t["b"]).get("v") == 0:
         rep.instance("C09.BLOCKGATE", "can_be_block_string: result is `common_indent == 0`")
     else:
         rep.finding("C09.BLOCKGATE", cb.name, "common-indent", "can_be_block_string no longer requires zero common indentation", cb.loc())
     ev = Evaluator(prog, "apollo_compiler")
-    tw = prog.hir_body(prog.fn(r"can_be_block_string::trim_start_graphql_whitespace$"))["body"]
+    tw = prog.hir_body(trimmer)["body"]
     arrs = [n for n in walk(tw) if n.get("k") == "array"]
     ws = set(strip_expr(e).get("v") for a in arrs for e in a["es"])
     if ws == {0x20, 0x09}:
